@@ -13,6 +13,9 @@ Record inst := mkInst {
   i_unix : Z; i_own_off : Z; i_loc_off : Z;      (* loc_off: offset of the interval's zone at unix (0 if none) *)
   i_go : civil; i_go_dim : Z; i_go_in : bool }.
 
+Record sysflush := mkFlush {
+  f_now : Z; f_tzt : list (string * Z); f_notified : bool; f_by : list string; f_muted : bool }.
+
 Inductive which_stage := StActive | StMute | StBoth.
 
 Inductive case :=
@@ -22,7 +25,9 @@ Inductive case :=
 | CParseRange (k : rkind) (s : string) (out : option rng)
 | CMutes (m : intervals) (tzt : list (string * Z)) (names : list string) (now : Z) (out : res (bool * list string))
 | CStage (w : which_stage) (m : intervals) (tzt : list (string * Z)) (x : sctx) (marker0 : option (list string))
-         (pass : bool) (err : option string) (muted_by : list string) (is_muted : bool).
+         (pass : bool) (err : option string) (muted_by : list string) (is_muted : bool)
+(* whole instance: the flushes of one group, in order; the marker is threaded from flush to flush *)
+| CSys (m : intervals) (mute active : list string) (fl : list sysflush).
 
 Definition tz_const (off : Z) : string -> Z -> Z := fun _ _ => off.
 Definition tz_table (t : list (string * Z)) : string -> Z -> Z :=
@@ -51,10 +56,23 @@ Definition stage_model (w : which_stage) (m : intervals) (tzt : list (string * Z
   | StBoth => let '(p, e, mk) := time_stages tz m x marker0 in (p, e, marker_muted mk)
   end.
 
+(* the dispatcher puts route id, group key, the route's two name lists and the tick instant into the context *)
+Definition sys_ctx (mute active : list string) (now : Z) : sctx :=
+  mkCtx (Some "route") (Some "group") (Some mute) (Some active) (Some now).
+Fixpoint sys_model (m : intervals) (mute active : list string) (marker : option (list string))
+  (fl : list sysflush) : list (bool * option string * (list string * bool)) :=
+  match fl with
+  | [] => []
+  | f :: r =>
+      let '(p, e, mk) := time_stages (tz_table (f_tzt f)) m (sys_ctx mute active (f_now f)) marker in
+      (p, e, marker_muted mk) :: sys_model m mute active mk r
+  end.
+
 Inductive shown :=
 | ShInsts (l : list (civil * Z * bool))
 | ShZ (z : Z) | ShR (o : option rng) | ShM (o : res (bool * list string))
-| ShS (o : bool * option string * (list string * bool)).
+| ShS (o : bool * option string * (list string * bool))
+| ShSys (l : list (bool * option string * (list string * bool))).
 
 Definition show_case (c : case) : shown :=
   match c with
@@ -64,6 +82,7 @@ Definition show_case (c : case) : shown :=
   | CParseRange k s _ => ShR (parse_range k s)
   | CMutes m tzt names now _ => ShM (mutes (tz_table tzt) m names now)
   | CStage w m tzt x mk0 _ _ _ _ => ShS (stage_model w m tzt x mk0)
+  | CSys m mute active fl => ShSys (sys_model m mute active None fl)
   end.
 
 Global Instance res_eq_dec {A} `{EqDecision A} : EqDecision (res A). Proof. solve_decision. Defined.
@@ -77,6 +96,8 @@ Definition check_case (c : case) : bool :=
   | CParseRange k s out => beq (parse_range k s) out
   | CMutes m tzt names now out => beq (mutes (tz_table tzt) m names now) out
   | CStage w m tzt x mk0 pass err by_ ism => beq (stage_model w m tzt x mk0) (pass, err, (by_, ism))
+  | CSys m mute active fl =>
+      beq (sys_model m mute active None fl) (map (fun f => (f_notified f, None, (f_by f, f_muted f))) fl)
   end.
 
 (* calendar sanity of the model's own fields: a valid date that converts back to the same day, weekday in 0..6 *)
@@ -121,4 +142,7 @@ Definition prop_case (c : case) : bool :=
       end
   | CStage StBoth m tzt x mk0 _ _ _ _ => gating_ok m tzt x mk0
   | CStage _ _ _ _ _ _ _ _ _ => true
+  | CSys m mute active fl =>
+      forallb (fun f => gating_ok m (f_tzt f) (sys_ctx mute active (f_now f)) None
+                        && gating_ok m (f_tzt f) (sys_ctx mute active (f_now f)) (Some ["stale"])) fl
   end.
